@@ -898,7 +898,10 @@ func (fr *frame) loopInvariants(li *loopInfo) []*Clause {
 // loopEnv returns the arguments for an invariant spec function: params, named vars, iter.
 func (fr *frame) loopEnv(li *loopInfo, c *Clause, phiVal func(p *ssa.Phi) *Val, st *State) ([]*Val, bool) {
 	args := append([]*Val{}, fr.params...)
-	for _, name := range c.VarNames {
+	for vi, name := range c.VarNames {
+		if vi < len(c.VarLocal) {
+			name = c.VarLocal[vi]
+		}
 		var found *Val
 		for _, in := range li.header.Instrs {
 			p, ok := in.(*ssa.Phi)
